@@ -7,7 +7,7 @@ C07 — model of the static file server's path handling, as the code is (unix bu
 * `fastAbs`              `caddy.FastAbs` against the cached working directory `cwd`
 * `fileHidden`           `fileserver.fileHidden` + `transformHidePaths` (staticfiles.go)
 * `serve`                decision skeleton of `FileServer.ServeHTTP` + `serveBrowse` +
-                         `directoryListing` (as of fix cfacd08) over an abstract filesystem `FS`
+                         `directoryListing` over an abstract filesystem `FS`
 * `matchFile`            `MatchFile.selectFile` (first_exist / first_exist_fallback): candidate
                          construction, `fs.Glob`, `strictFileExists`
 
@@ -244,21 +244,26 @@ def showEntry (e : Entry) : Bytes := if e.isDir then e.name ++ [slash] else e.na
 def listingNamesOld (c : Cfg) (es : List Entry) : List Bytes :=
   (es.filter fun e => !c.hidden e.name).map showEntry
 
-/-- the entry's path as `directoryListing` computes it:
-    `SanitizedPathJoin(root, path.Join(dirURLPath, name))`, where `dirURLPath` is
-    `url.PathUnescape(path.Clean(r.URL.EscapedPath()))`, i.e. the cleaned request path -/
-def entryPath (c : Cfg) (path name : Bytes) : Bytes :=
+/-- the entry path of the filter of /repo cfacd08 (before the fix that hands `dirPath` down):
+    `SanitizedPathJoin(root, path.Join(dirURLPath, name))`, `dirURLPath` = the cleaned request
+    path.  Kept for `Witness.lean`. -/
+def entryPathUrl (c : Cfg) (path name : Bytes) : Bytes :=
   sanitizedPathJoin c.rootE (pathJoin2 (pathClean path) name)
 
+/-- the filter of /repo cfacd08.  Kept for `Witness.lean`. -/
+def listingNamesUrl (c : Cfg) (path : Bytes) (es : List Entry) : List Bytes :=
+  (es.filter fun e => !(c.hidden e.name || c.hidden (entryPathUrl c path e.name))).map showEntry
+
 /-- the entry names a listing shows: an entry is skipped if
-    `fileHidden(name, hide) || fileHidden(SanitizedPathJoin(root, path.Join(dirURLPath, name)), hide)` -/
-def listingNames (c : Cfg) (path : Bytes) (es : List Entry) : List Bytes :=
-  (es.filter fun e => !(c.hidden e.name || c.hidden (entryPath c path e.name))).map showEntry
+    `fileHidden(name, hide) || fileHidden(filepath.Join(dirPath, name), hide)`, `dirPath` being the
+    directory `serveBrowse` opened -/
+def listingNames (c : Cfg) (dirPath : Bytes) (es : List Entry) : List Bytes :=
+  (es.filter fun e => !(c.hidden e.name || c.hidden (pathJoin2 dirPath e.name))).map showEntry
 
 /-- `serveBrowse` -/
 def serveBrowse (c : Cfg) (dirPath : Bytes) (es : List Entry) (path orig : Bytes) : Traced Outcome :=
   if (path = [] || sameBase orig path) && !endsWithSlash orig then (.redirect, [])
-  else (.listing dirPath (listingNames c path es), [dirPath])
+  else (.listing dirPath (listingNames c dirPath es), [dirPath])
 
 /-- `openFile` + `http.ServeContent` on the chosen file -/
 def openAndServe (fs : FS) (c : Cfg) (filename : Bytes) : Traced Outcome :=
